@@ -43,11 +43,11 @@ CHECKS = {
     text="Consuming evaluation decided equal to the reference for all values; exactly-once variables are never cloned; the placeholder never reaches an operator.", ref="4/C15"),
  "C16": dict(engine="S+K", technique="Kani/CBMC operator cells of Val<i32,f64>: per operator and role, concrete operand kinds x fully symbolic payloads (multiplicative Int kernels over boundary values and [-9,9], exponents [-2,66]) vs the typed rule table transcribed from the rustdoc; quick tier: direct kernels (the private operator functions of value.rs that the table entries name, association read from the source of make() on every run, reached through verif_hooks::val) for every operator that names a function, all operand-kind groups, libm primitives and sqrt replaced by tagged stubs so that the cell proves which primitive is applied to which argument; thorough tier: table cells (operator looked up by a natively computed index, repr() asserted). Engine S: precedence semantics of the real table (metadata transplant) decided for all values",
     text="Typing/error rules of the value operators are model-checked per cell (quick: 105 direct kernels + table cells of / < == if else + casts <i32,f32>; thorough: all 260 harnesses incl. arrays and the second/third instantiation for casts); expression-level precedence over the real table is decided by engine S.", ref="4/C16"),
- "C17": dict(engine="K", technique="Kani/CBMC on the same operator cells: every Rust-level panic (overflow assertion, unwrap on None, index out of bounds) and unwinding assertion is a proof obligation; counterexamples are replayed natively with `cargo kani playback`",
+ "C17": dict(engine="S+K", technique="Kani/CBMC on the same operator cells: every Rust-level panic (overflow assertion, unwrap on None, index out of bounds) and unwinding assertion is a proof obligation; counterexamples are replayed natively with `cargo kani playback`. Complement (path-level, no solver): the catalogue of the property's own quantifier, every operator of the real table on every (ordered pair of) ~75 boundary operands incl. arrays of length 0..5, at evaluation time and through parse-time folding, under catch_unwind in a build with overflow checks",
     text="Totality of the value operators for ALL payloads of every operand kind within the harness bounds; the same function pointers are called by parse-time folding. Quick: direct kernels of every named operator function (all operand-kind groups), table cells of / < == if else, casts <i32,f32>; thorough: all cells.", ref="4/C17",
     note=K_NOTE),
- "C18": dict(engine="S+K", technique="calculus engine over the transplanted ValOpsFactory table with if/else/comparisons interpreted in SMT (ite over reals with a distinguished none value); first and second order (mixed) derivatives decided equal to ite(c, f', g'); Kani cells for if/else/comparisons/to_float in the thorough tier",
-    text="Branch-wise differentiation of piecewise expressions decided for all points on a pool of ~450 piecewise expressions (nested, inside arithmetic, parenthesised conditions), order 1 and 2, flat and deep.", ref="4/C18"),
+ "C18": dict(engine="S+K", technique="calculus engine over the transplanted ValOpsFactory table with if/else/comparisons interpreted in SMT (ite over reals with a distinguished none value); first and second order (mixed) derivatives decided equal to ite(c, f', g'); Kani: From<f32>/From<u8> for Val (the constants of the derivative rules) for every f32/u8 in the quick tier, cells for if/else/comparisons/to_float in the thorough tier. Complement (path-level, no solver): the real parse_val::<i32,f64>.partial.eval on integer polynomials at every Int/Float kind pattern vs an exact rational dual-number evaluation (the kinds of the rule constants decide whether Int ^ constant is defined)",
+    text="Branch-wise differentiation of piecewise expressions decided for all points on a pool of ~900 piecewise expressions (nested, inside arithmetic, parenthesised conditions), order 1 and 2, flat and deep.", ref="4/C18"),
  "C19": dict(engine="M+S+K", technique="MIR of FloatOpsFactory::make (nightly -Zunpretty=mir) translated entry by entry to SMT-LIB FloatingPoint terms; z3 decides body(a,b) = documented function for all a, b at f64 and f32; counterexamples replayed through the real function pointers",
     text="Every entry of the default table (34 operators in both roles, 6 constants) is decided to compute the function its name documents, with the documented argument order, for ALL float operands (IEEE + - * / interpreted bit-precisely, num::Float methods as uninterpreted functions named after the method). A body that is not a recognised single call is inconclusive, never a pass.", ref="4/C19",
     note="Trusted: rustc nightly's MIR printer, z3 4.8.12 FP theory, num::Float forwarding to the std primitive (uninterpreted here), the name->primitive table transcribed from the rustdoc of FloatOpsFactory. sat answers are replayed natively through Operator::bin()/unary() of the real f32/f64 tables."),
